@@ -52,6 +52,12 @@ CLAIMED = {
  "C16": ("decision tables of the clamp functions; classification of every element appended to (or written into) a numeric item's values as clamp result / bound / widening / guarded conversion, with branch-fact analysis of the overflow switch; default-arm analysis of every constructor type switch; who-may-call analysis of wire.FromItem and dominance of the item.Error() gate; per-arm path analysis of childClean over every concrete item type; panic/assertion scan of the constructor code",
          "Decides that the clamp helpers clamp to the nearest bound on every ordering cell, that no constructor path stores an unclamped caller value where it may be out of range (F4 overflow switch included), that unsupported argument types always yield an errored item, that a constructed item becomes a message body only inside NewDataMessage behind its Error() gate and every session send path builds through it, that a list is reported clean only if every child of every concrete type has no deferred error, that Equal refuses errored items first, and that constructor code contains no explicit panic or unchecked assertion. Numeric results beyond the clamp tables are not decided.",
          "§4 C16"),
+ "C13": ("sibling-agreement analysis between the strict encoder and the strict parser: the set of characters whose comparison leads to the escape write versus the set of characters the parser tests inside a quoted run; literal/digit-table extraction of the numeric-token writer and use analysis of every parsed token value; constant analysis (through closure bindings) of the float formatting and parsing parameters; token sequence of the header writer versus the tokens the header parser tests",
+         "Decides necessary conditions of the strict SML round trip: the encoder escapes the quote character in use, the backslash and every character the parser gives a meaning inside a quoted run; non-printable bytes are written as 0xHH tokens that the parser reads with base 0, bounds by 255 and stores as one byte on every branch; floats are written with 'G' at 9/17 digits and the item's own bit size and parsed at that bit size; the header tokens written are the ones parsed. The round trip itself (all messages, all option combinations) is not decided.",
+         "§4 C13"),
+ "C15": ("sibling-agreement analysis between secs2 ToSML and the sml encoder: the strconv conversions (kind, base, format, precision, bit size) used per numeric family and per branch, the literal tokens of booleans, the write sequences of the list renderers on the empty and non-empty paths, and the encoder's default option constants",
+         "Decides necessary conditions of byte-identity of the two renderers: same signedness/base for integers in every branch, same 'G'/9/17/bit-size parameters for floats, same boolean tokens, indentation written before every list opener (empty list included) with the same unit and depth rule, and encoder defaults equal to the constants baked into ToSML. Byte equality on all item trees is not decided.",
+         "§4 C15"),
  "C14": ("bounds/size obligations over the parse fragment decided by linear integer arithmetic on SSA values with inductively inferred contracts and Parser field invariants (data = input[pos:], len = len(input), 0 ≤ pos ≤ len); recursion-cycle depth-parameter analysis; provenance of every ParseError offset and decision table of the line/column scan; who-may-write enumeration of package variables and Parser/Encoder fields",
          "Decides that every index/slice of the scan window, every forward/backward step and every allocation size (make, Builder.Grow) reachable from the Parse entry points is in range / bounded by the unread input for every text, that list nesting is depth-bounded before recursion, that every syntax error's offset is a parser position clamped to len(input) with line/column derived from exactly that prefix, and that parser/encoder instances share no mutable state. Does not decide running time or messages' values.",
          "§4 C14"),
